@@ -322,7 +322,11 @@ def run(ctx):
         cctx.verify_mode = ssl.CERT_NONE
         forms = [(b"/\r\n", 0), (b"/\t$\r\n", 0), (b"GET / HTTP/1.0\r\n\r\n", 0), (b"GET /wap/ HTTP/1.0\r\n\r\n", 0), (b"gemini://localhost/\r\n", 1),
                  (b"localhost / 0\r\n", 0), (b"/testfile.txt\r\n", 1), (b"/python-dev.mbox\r\n", 0), (b"GET /gopherplus HTTP/1.0\r\n\r\n", 1),
-                 (b"/gopherplus\t$\r\n", 0), (b"/bucktooth\r\n", 0), (b"/nope\r\n", 0), (b"/testfile.txt\t+\r\n", 0), (b"localhost /testfile.txt 0\r\n", 0)]
+                 (b"/gopherplus\t$\r\n", 0), (b"/bucktooth\r\n", 0), (b"/nope\r\n", 0), (b"/testfile.txt\t+\r\n", 0), (b"localhost /testfile.txt 0\r\n", 0),
+                 # a WAP handset (recognised by its headers) next to browsers that send other headers or none: what one
+                 # connection's header block says is that connection's alone
+                 (b"GET /testfile.txt HTTP/1.0\r\nAccept: text/html, text/vnd.wap.wml\r\nX-Wap-Profile: http://wap.example/p.xml\r\n\r\n", 0),
+                 (b"GET /testfile.txt HTTP/1.0\r\nUser-Agent: plain browser\r\n\r\n", 0), (b"GET /gopherplus HTTP/1.0\r\nHost: localhost\r\n\r\n", 0)]
         for stype in ("ThreadingTCPServer", "ForkingTCPServer"):
             pyg.reset_globals()
             for dp, dn, fn in os.walk(tree.root):
